@@ -54,6 +54,8 @@ Definition c09_hparse_data := hparse_data Z 0 zp_smul 1 zn Z.eqb zp_unsec.
 Definition c09_parse_hd_data := parse_hd_data Z 0 zp_smul 1 zn Z.eqb zp_unsec.
 Definition c09_run_ops (root : c09_node) (ops : list hdop) :=
   run_ops Z zp_add 0 zp_smul 1 zn Z.eqb zp_sec zp_hmac oh160 drv_fuel drv_limit root [] ops.
+Definition c09_run_fops (root : c09_node) (ops : list fop) :=
+  run_fops Z zp_add 0 zp_smul 1 zn Z.eqb zp_sec zp_unsec zp_hmac oh160 drv_fuel drv_limit [(root, [])] ops.
 Definition c09_sec := zp_sec.
 Definition c09_xy := zp_xy.
 Definition c09_electrum_init := electrum_init Z 0 zp_smul 1 zn Z.eqb.
@@ -111,7 +113,7 @@ Definition c09_ew_fields (w : ewallet Z) := (ew_secret Z w, ew_point Z w).
 
 Extraction "../ml/c09.ml" drv_base
   c09_master c09_public_copy c09_ckd_priv c09_ckd_pub c09_serialize c09_deserialize c09_node_init c09_hwif_data
-  c09_hparse_data c09_parse_hd_data c09_run_ops c09_sec c09_xy c09_electrum_init c09_electrum_public_copy
+  c09_hparse_data c09_parse_hd_data c09_run_ops c09_run_fops c09_sec c09_xy c09_electrum_init c09_electrum_public_copy
   c09_electrum_subkey c09_electrum_subkeys c09_subpaths c09_spec_derive
   c09_py_int c09_py_dec c09_path_token c09_path_tokens c09_split c09_mk_node c09_mk_bipnet c09_mk_ew
   c09_nd_fields c09_ew_fields.
